@@ -154,6 +154,7 @@ func (s *Solver) ensureFresh() {
 	}
 	s.needFresh = false
 	if s.inPath {
+		// also closes query scopes left open by an abort in the middle of a query
 		s.send("(pop 1)\n")
 		s.inPath = false
 	}
@@ -277,31 +278,26 @@ func (s *Solver) define(t *Term, sb *strings.Builder) {
 	s.journal = append(s.journal, t.id)
 }
 
-// Assert adds t to the current scope.
-func (s *Solver) Assert(t *Term) {
-	s.ensureFresh()
-	var sb strings.Builder
-	s.define(t, &sb)
-	fmt.Fprintf(&sb, "(assert %s)\n", s.ref(t))
-	s.send(sb.String())
-}
-
-// Check decides satisfiability of (asserted ∧ extra...). With wantModel, values of vars are returned on sat.
-func (s *Solver) Check(extra []*Term, vars []*Term, wantModel bool) (Result, map[string]interface{}) {
+// Check decides satisfiability of the conjunction of asserts. Definitions are kept at path level (they do not
+// affect satisfiability); the assertions live only inside the query's own scope. With wantModel, values of
+// vars are returned on sat.
+func (s *Solver) Check(asserts []*Term, vars []*Term, wantModel bool) (Result, map[string]interface{}) {
 	start := time.Now()
 	s.Stats.Queries++
 	s.ensureFresh()
-	s.push()
 	var sb strings.Builder
-	for _, t := range extra {
+	for _, t := range asserts {
 		s.define(t, &sb)
-		fmt.Fprintf(&sb, "(assert %s)\n", s.ref(t))
 	}
 	if wantModel {
 		// everything the model is read for must be declared before check-sat (declarations may carry axioms)
 		for _, v := range vars {
 			s.define(v, &sb)
 		}
+	}
+	sb.WriteString("(push 1)\n")
+	for _, t := range asserts {
+		fmt.Fprintf(&sb, "(assert %s)\n", s.ref(t))
 	}
 	sb.WriteString("(check-sat)\n")
 	s.send(sb.String())
@@ -311,9 +307,7 @@ func (s *Solver) Check(extra []*Term, vars []*Term, wantModel bool) (Result, map
 		model = s.getValues(vars)
 	}
 	if !s.dead {
-		s.pop()
-	} else {
-		s.marks = s.marks[:0]
+		s.send("(pop 1)\n")
 	}
 	if hadErr {
 		s.Stats.Errors++
@@ -370,11 +364,6 @@ func (s *Solver) getValues(vars []*Term) map[string]interface{} {
 		return map[string]interface{}{}
 	}
 	var sb strings.Builder
-	var defs strings.Builder
-	for _, v := range vars {
-		s.define(v, &defs)
-	}
-	sb.WriteString(defs.String())
 	sb.WriteString("(get-value (")
 	n := 0
 	for _, v := range vars {
